@@ -122,6 +122,16 @@ func init() {
 				}
 			}
 		}
+		// the relayed block's LastCommit: the header binds only its signature list (Commit.Hash), so its
+		// Height, Round and BlockID need their own tie to verified data — a signature check against the previous
+		// height's verified validator set (or, for height and block id, equality with the header's LastBlockID)
+		for _, name := range []string{"Client.Block", "Client.BlockByHash"} {
+			if f := c.fn("light/rpc", name); f != nil {
+				g := guardAny("LastCommit verified against the previous height's validator set",
+					guardRe("v", `^nil\(.*\.VerifyCommit(Light)?\(.*res\.Block\.LastCommit\)\)$`))
+				c.Check(c.ge().ensures(f, g, 2), "light/rpc."+name+" ensures the block's LastCommit fields are bound to verified data", w.pos(f.Pos()), "LastCommit verified", "light/rpc."+name+" relays Block.LastCommit with Height, Round and BlockID that nothing ties to the verified header (LastCommitHash covers the signatures only)")
+			}
+		}
 		// Commit and Validators are built from the light client's own data
 		for _, name := range []string{"Client.Commit", "Client.Validators"} {
 			if f := c.fn("light/rpc", name); f != nil {
